@@ -7,7 +7,7 @@ from ..battery import call, _Raised
 from ..observe import observe
 from .c08 import gen_hypergraph
 
-N_RANDOM = {"quick": 800, "thorough": 12000}
+N_RANDOM = {"quick": 800, "thorough": 40000}
 N_EXH = 2 ** 15 - 1  # every non-empty hypergraph on 4 fixed nodes, thorough tier only
 TIERS = {"quick": N_RANDOM["quick"], "thorough": N_RANDOM["thorough"] + N_EXH}
 EXHAUSTIVE = {"quick": False, "thorough": True}
